@@ -44,7 +44,7 @@ def observe_deref(p, target, stream):
 
 
 def ptr_history(rnd, first_id):
-    mode = {"endian": rnd.choice("<>"), "align": rnd.random() < 0.4, "ptr": rnd.choice([1, 2, 4, 8])}
+    mode = {"endian": rnd.choice("<>"), "align": rnd.random() < 0.4, "ptr": rnd.choice([1, 2, 4, 8, 1, 2, 4, 8, 3, 6, 16])}
     tg = targets()
     nptr = rnd.randrange(1, 4)
     fields, k = [], 0
@@ -61,7 +61,7 @@ def ptr_history(rnd, first_id):
     if rnd.random() < 0.3 and "struct PS" in defs:
         # the pointer width is configured AFTER other definitions with the same pointer targets were loaded under another width:
         # what is declared afterwards has the configured width (nothing about a pointer type may be remembered per target)
-        other = dict(mode, ptr=rnd.choice([w for w in (1, 2, 4, 8) if w != mode["ptr"]]))
+        other = dict(mode, ptr=rnd.choice([w for w in (1, 2, 3, 4, 6, 8) if w != mode["ptr"]]))
         cs = codec.load(defs.replace("struct PS", "struct PW"), other, compiled)
         if rnd.random() < 0.5:
             try:
@@ -81,7 +81,7 @@ def ptr_history(rnd, first_id):
         rid += 1
         stream, data = None, b""
     else:
-        start = rnd.choice([0, 0, 16])
+        start = rnd.choice([0, 0, 16, 5])
         n = start + T.size + rnd.randrange(4, 60)
         data = bytearray(rnd.choice([0, 0, 1, 0x41, 0x7F, 0x80, 0xFF, rnd.randrange(256)]) for _ in range(n))
         width = mode["ptr"]
